@@ -103,25 +103,24 @@ class Reporter:
         self.ctx, self.kind, self.n = ctx, kind, n
         self.counts = {}
 
-    def __call__(self, d, history, idx):
+    def __call__(self, d, history):
         sig = signature_of(self.kind, d)
         self.counts[sig] = self.counts.get(sig, 0) + 1
         if self.counts[sig] > 1:
             return
-        inst, form = d["inst"], d["form"]
-        b = rc.make_binding(self.kind, inst, form, self.n)
-        muts = [(a, e) for a, e in history[:-1] if b.is_mutator(a["name"])]
-        ops = muts + [history[-1]]
-        r = rc.run_sequence(self.kind, inst, form, self.n, ops)
+        inst = d["inst"]
+        b = rc.make_binding(self.kind, inst, None, self.n)
+        ops = [h for h in history[:-1] if b.is_mutator(h[0]["name"])] + [history[-1]]
+        r = rc.run_sequence(self.kind, inst, self.n, ops)
         if not (r and r[0] == len(ops) - 1 and r[1]["what"] == d["what"]):
             ops = list(history)                              # the observers in between matter: keep everything
-        obj = {"kind": self.kind, "inst": inst, "form": form, "n": self.n,
-               "ops": [{"act": _json_act(a), "state": rc.jsonable(e)} for a, e in ops],
+        obj = {"kind": self.kind, "inst": inst, "n": self.n,
+               "ops": [{"act": _json_act(a), "state": rc.jsonable(e), "form": f} for a, e, f in ops],
                "divergence": rc.jsonable(d)}
         cls = "SortedSet" if self.kind == "set" else rc.MAP_INSTS[inst].cls
         self.ctx.violation(
             "%s (%s, operand form %s): after %d operations, %s [%s] gives %s, the model says %s (%s)" % (
-                cls, inst, form, len(ops) - 1, d["op"], d["style"], d["observed"], d["expected"], d["what"]),
+                cls, inst, d["form"], len(ops) - 1, d["op"], d["style"], d["observed"], d["expected"], d["what"]),
             replay=obj, signature=sig)
 
 
@@ -195,19 +194,18 @@ def nontrivial_key(nodes, walk, kind):
     return tuple(key) if hit else None
 
 
-def selftest(ctx, kind, n, nodes, walks, obs_out):
+def selftest(ctx, kind, n, nodes, walk, obs_out):
     """Corrupt one expected result / one expected state and require the replayer to notice."""
-    inst, form = rc.passes(kind)[0]
-    b = rc.make_binding(kind, inst, form, n)
-    w = next((w for w in walks if len(w) >= 4), walks[0])
+    inst = rc.instantiations(kind)[0]
+    b = rc.make_binding(kind, inst, None, n)
     ops = []
-    for nid in w[1:]:
-        ops.append((nodes[nid]["act"], b.expected_state(nodes[nid])))
-    last = w[-1]
+    for nid in walk[1:]:
+        ops.append((nodes[nid]["act"], b.expected_state(nodes[nid]), b.forms_for(nodes[nid]["act"])[0]))
+    last = walk[-1]
     leaf = next((l for l in obs_out.get(last, ()) if nodes[l]["act"]["name"] == "len"), None)
     if leaf is not None:
-        ops.append((nodes[leaf]["act"], b.expected_state(nodes[last])))
-    if rc.run_sequence(kind, inst, form, n, ops) is not None:
+        ops.append((nodes[leaf]["act"], b.expected_state(nodes[last]), "*"))
+    if len(ops) < 2 or rc.run_sequence(kind, inst, n, ops) is not None:
         return None                                          # the code under test diverges here anyway: no self-test
     out = {}
 
@@ -226,13 +224,12 @@ def selftest(ctx, kind, n, nodes, walks, obs_out):
         return expect, st
 
     i = len(ops) - 1
-    r = rc.run_sequence(kind, inst, form, n, ops, corrupt_at=i, corrupt=bad_result)
+    r = rc.run_sequence(kind, inst, n, ops, corrupt_at=i, corrupt=bad_result)
     if not (r and r[0] == i and r[1]["what"] == "result"):
         raise tlc.MachineryError("binding self-test failed (%s): corrupted expected result accepted" % kind)
     out["corrupted_result_rejected"] = 1
-    j = 1 if len(ops) > 1 else 0
-    r = rc.run_sequence(kind, inst, form, n, ops, corrupt_at=j, corrupt=bad_state)
-    if not (r and r[0] == j and r[1]["what"] == "state"):
+    r = rc.run_sequence(kind, inst, n, ops, corrupt_at=1, corrupt=bad_state)
+    if not (r and r[0] == 1 and r[1]["what"] in ("state", "result")):
         raise tlc.MachineryError("binding self-test failed (%s): corrupted expected state accepted" % kind)
     out["corrupted_state_rejected"] = 1
     return out
@@ -245,46 +242,44 @@ def replay_plan(ctx, label, consts, graph, summary):
     for st in nodes.values():                               # plain Python values once
         st["act"] = rc.plain(dict(st["act"]))
     leaf = {nid for nid, st in nodes.items() if st["done"]}
-    mut_edges = [e for e in edges if e[1] not in leaf]
-    obs_out = {}
+    succ, obs_out = {}, {}
     for s, d, _ in edges:
-        if d in leaf:
-            obs_out.setdefault(s, []).append(d)
+        (obs_out if d in leaf else succ).setdefault(s, []).append(d)
+    mut_edges = [e for e in edges if e[1] not in leaf]
     all_edges = set((s, d) for s, d, _ in edges)
-    walks = tlc.graph_walks(nodes, mut_edges, init, rng=ctx.rng, max_walks=len(mut_edges) + 1,
-                            max_len=consts["MaxSteps"] + 1)
-    if not walks:
-        walks = [[i] for i in init]
-    t_walks = time.time() - t0
+    # from-scratch behaviours (no cloning): random maximal walks through the mutator graph
+    n_walks = 1500 if ctx.quick else 6000
+    walks = tlc.graph_walks(nodes, mut_edges, init, rng=ctx.rng, max_walks=n_walks, max_len=consts["MaxSteps"] + 1,
+                            cover_edges=False)
     rep = Reporter(ctx, kind, n)
-    per_pass = {}
+    per_inst = {}
     exhaustive = True
-    clean = 0
-    calls = 0
-    for inst, form in rc.passes(kind):
-        stats, covered = rc.replay_graph(kind, inst, form, n, nodes, walks, obs_out, rep)
-        per_pass["%s/%s" % (inst, form)] = {"edges": stats["edges"], "walks": stats["walks"],
-                                            "clean_walks": stats["clean_walks"], "calls": stats["calls"]}
-        if covered != all_edges and not stats["divergences"]:
-            raise tlc.MachineryError("replay of %s under %s/%s covered %d of %d edges" % (
-                label, inst, form, len(covered), len(all_edges)))
+    for inst in rc.instantiations(kind):
+        t1 = time.time()
+        stats, covered = rc.replay_dfs(kind, inst, n, nodes, succ, obs_out, init, rep)
+        wst = rc.replay_walks(kind, inst, n, nodes, walks, rep)
+        per_inst[inst] = {"edges_replayed": stats["edges"], "executions": stats["edge_executions"],
+                          "behaviours": stats["behaviours"], "clean_behaviours": stats["clean_behaviours"],
+                          "from_scratch_walks": wst["walks"], "clean_walks": wst["clean_walks"],
+                          "calls": stats["calls"] + wst["calls"], "wall_s": round(time.time() - t1, 1)}
+        if covered != all_edges and not stats["desynced"]:
+            raise tlc.MachineryError("replay of %s under %s covered %d of %d edges" % (
+                label, inst, len(covered), len(all_edges)))
         exhaustive = exhaustive and covered == all_edges
-        clean += stats["clean_walks"]
-        calls += stats["calls"]
-    ctx.traces_validated += clean
-    ctx.evaluations += calls
+        ctx.traces_validated += stats["clean_behaviours"] + wst["clean_walks"]
+        ctx.evaluations += stats["calls"] + wst["calls"]
     for w in walks:
         k = nontrivial_key(nodes, w, kind)
         if k:
             ctx.nontrivial((label,) + k)
-    for w in walks[:: max(1, len(walks) // 2)][:2]:
+    for w in walks[:2]:
         ctx.sample(rc.jsonable({"run": label, "behaviour": [{"act": nodes[x]["act"], "S": nodes[x]["S"], "M": nodes[x]["M"]}
                                                             for x in w[1:]]}))
-    st = selftest(ctx, kind, n, nodes, walks, obs_out)
+    st = selftest(ctx, kind, n, nodes, max(walks, key=len), obs_out)
     summary.append({"run": label, "graph_nodes": len(nodes), "graph_edges": len(all_edges),
-                    "mutator_edges": len(mut_edges), "walks": len(walks), "exhaustive": exhaustive,
-                    "passes": per_pass, "divergences": dict(rep.counts), "binding_selftest": st,
-                    "replay_wall_s": round(time.time() - t0, 1), "walks_wall_s": round(t_walks, 1)})
+                    "mutator_edges": len(mut_edges), "exhaustive": exhaustive,
+                    "instantiations": per_inst, "divergences": dict(rep.counts), "binding_selftest": st,
+                    "replay_wall_s": round(time.time() - t0, 1)})
     return exhaustive, st
 
 
@@ -317,7 +312,7 @@ def run(ctx):
     ctx.note("exhaustive", exhaustive)
     ctx.note("runs", summary)
     ctx.note("graph_edges", sum(r["graph_edges"] for r in summary))
-    ctx.note("graph_edges_replayed", sum(min(p["edges"] for p in r["passes"].values()) for r in summary))
+    ctx.note("graph_edges_replayed", sum(min(p["edges_replayed"] for p in r["instantiations"].values()) for r in summary))
     ctx.note("instantiations", {"SortedSet": {i.name: {"elements": [repr(v) for v in i.values[:4]], "operand_forms": i.forms}
                                               for i in rc.SET_INSTS.values()},
                                 "maps": {i.name: {"class": i.cls, "keys": [repr(r) for r in i.reps[:4]], "values": [repr(v) for v in i.vals]}
@@ -344,19 +339,25 @@ def replay(ctx, obj):
         for a in obj.get("trace", []):
             print(a)
         return
-    kind, inst, form, n = obj["kind"], obj["inst"], obj["form"], obj["n"]
-    b = rc.make_binding(kind, inst, form, n)
+    kind, inst, n = obj["kind"], obj["inst"], obj["n"]
+    b = rc.make_binding(kind, inst, None, n)
     midx = 0
     for i, o in enumerate(obj["ops"]):
-        act, exp = o["act"], o["state"]
-        if b.is_mutator(act["name"]):
+        act, exp, form = o["act"], o["state"], o.get("form", "*")
+        mut = b.is_mutator(act["name"])
+        if mut:
             midx += 1
-        d = rc.step(b, act, exp, midx)
-        print("%2d %-22s arg=%-18s spec: res=%s exc=%r state=%s" % (i, act["name"], act["arg"], act["res"], act["exc"],
-                                                                  exp.get("items")))
+        forms = b.forms_for(act) if form == "*" else [form]
+        print("%2d %-22s arg=%-18s forms=%s  spec: res=%s exc=%r state=%s" % (
+            i, act["name"], act["arg"], forms[:1] if mut else forms, act["res"], act["exc"], exp.get("items")))
+        for f in (forms[:1] if mut else forms):
+            b.form = f
+            d = rc.step(b, act, exp, midx)
+            if d:
+                print("   real object now: %r" % (b.obj,))
+                print("   DIVERGENCE (%s) style %s form %s: observed %s, expected %s" % (
+                    d["what"], d["style"], f, d["observed"], d["expected"]))
+                ctx.violations += 1
+                return
         print("   real object now: %r" % (b.obj,))
-        if d:
-            print("   DIVERGENCE (%s) style %s: observed %s, expected %s" % (d["what"], d["style"], d["observed"], d["expected"]))
-            ctx.violations += 1
-            return
     print("no divergence")
